@@ -73,6 +73,8 @@ func runCachelin(w *ndWriter, seed int64, nops int, nreaders int) int {
 		return l
 	}
 	for i := 0; i < nops; i++ {
+		// one driver-level operation is one atomic step of the cache: exactly one mutation line between call and return
+		tr.LogRaw("writer", "wr.call", fmt.Sprintf(`"cache":%q,"n":%d`, cname, i))
 		switch rng.Intn(6) {
 		case 0, 1:
 			keys := [][]string{{"a", "b", "c", "d"}, {"a", "b"}, {"c", "d"}, {}, {"a", "c", "d"}}[rng.Intn(5)]
@@ -85,6 +87,13 @@ func runCachelin(w *ndWriter, seed int64, nops int, nreaders int) int {
 			version++
 			et := []kcache.EventType{kcache.EventTypeCreate, kcache.EventTypeUpdate, kcache.EventTypeDelete}[rng.Intn(3)]
 			cache.Update(kcache.NewEvent(et, mkPod(treeKeys[rng.Intn(4)], version, rng.Intn(2))))
+		}
+		tr.LogRaw("writer", "wr.ret", fmt.Sprintf(`"cache":%q,"n":%d`, cname, i))
+		if rng.Intn(2) == 0 {
+			// the writer reads right after its own acknowledged write: it must see it
+			tr.LogRaw("writer", "rd.call", fmt.Sprintf(`"op":"list","cache":%q,"n":%d,"k":""`, cname, i))
+			l, err := cache.List()
+			tr.LogRaw("writer", "rd.ret", fmt.Sprintf(`"op":"list","cache":%q,"n":%d,"list":%s,"err":%v,"keep":false`, cname, i, jsObjs(l), err != nil))
 		}
 		if rng.Intn(4) == 0 {
 			time.Sleep(time.Duration(rng.Intn(100)) * time.Microsecond)
